@@ -513,7 +513,10 @@ def run(ctx):  # noqa: F811
     _c01.r01_4_flatten(ctx)  # every branch target gets its label exactly once (shared with C01)
     _c01.r01_4e_flatten_traces(ctx)  # ... decided on flattened block lists: every b/bz/bnz names a label that is defined once
     r04_8_has_return(ctx)
-    from rules import c10 as _c10, c18 as _c18
+    from rules import c10 as _c10, c18 as _c18, c13 as _c13
+
+    _c13.r13_3_escape(ctx)  # every string literal is one well-formed token of the assembler's grammar (shared with C13)
+    _c13.r13_1_bytes_forms(ctx)
 
     _c01.r01_13_is_terminal(ctx)  # which blocks need no fall-through branch (shared with C01)
     from rules.lowering_sem import r01_15_pipeline, r04_9_whole_program
